@@ -1,0 +1,29 @@
+//go:build verif
+// +build verif
+
+package php5
+
+import "github.com/z7zmey/php-parser/pkg/token"
+
+// VerifLexHook, when set, is called after every token the parser pulls
+// from the scanner. The verification harness uses it to record events and
+// as a blocking scheduler gate. It must be set before any parse starts.
+var VerifLexHook func(p *Parser, t *token.Token)
+
+func verifOnLex(p *Parser, t *token.Token) {
+	if VerifLexHook != nil {
+		VerifLexHook(p, t)
+	}
+}
+
+// VerifSetDebug sets goyacc's debug level (0 = off).
+func VerifSetDebug(n int) { yyDebug = n }
+
+// VerifTables returns the rule tables of the generated parser:
+// left-hand side and right-hand-side length per rule, and token names.
+func VerifTables() (r1 []int, r2 []int, toknames []string) {
+	return yyR1[:], yyR2[:], yyToknames[:]
+}
+
+// VerifTokname names a token the way the debug stream does.
+func VerifTokname(c int) string { return yyTokname(c) }
